@@ -40,6 +40,7 @@ type WMod struct {
 	StopDur   int   `json:"stop_dur,omitempty"`
 	LifePanic [3]int `json:"life_panic,omitempty"` // C06: panic kind in prep/start/stop (0 none)
 	StopErr   bool   `json:"stop_err,omitempty"`   // the stop routine returns an error
+	StartFail bool   `json:"start_fail,omitempty"` // C05 with management: the first start attempt fails (after the work launched from it has begun); a second management pass starts the module
 }
 
 // WItem is one piece of managed work.
@@ -186,6 +187,9 @@ func genWork(rng *rand.Rand, tier, prop string) *WorkPlan {
 		it.Done = 1 + rng.IntN(3)
 		p.Items = append(p.Items, it)
 	}
+	if prop == "C05" && p.Mgmt && rng.IntN(4) == 0 {
+		p.Mods[rng.IntN(len(p.Mods))].StartFail = true
+	}
 	if prop == "C05" && p.Mgmt && rng.IntN(3) == 0 {
 		p.Warm = true
 		for i := range p.Mods {
@@ -311,6 +315,10 @@ func (s *workState) lifecycle(i, ph int) func() error {
 		if ph == 2 && m.StopErr {
 			s.rc.Fault("stop-error")
 			return fmt.Errorf("injected stop error in %s", modName(i))
+		}
+		if ph == 1 && m.StartFail && inv == 0 {
+			s.rc.Fault("start-error")
+			return fmt.Errorf("injected start error in %s", modName(i))
 		}
 		if k := m.LifePanic[ph]; k != 0 && inv == 0 {
 			s.lifePanics[ph]++
@@ -511,6 +519,19 @@ func execWork(prop string, p *WorkPlan, rc *simkit.RunCtx) {
 	}
 	s.startErr = modules.Start()
 	rc.H("Start err=%v", s.startErr != nil)
+	if s.startErr != nil && p.Mgmt && prop == "C05" {
+		failing := false
+		for _, m := range p.Mods {
+			failing = failing || m.StartFail
+		}
+		if failing {
+			// the failed module is offline again: another management pass starts it (second invocation succeeds)
+			if err := modules.ManageModules(); err == nil {
+				s.startErr = nil
+				rc.Probe("started-after-failed-first-attempt")
+			}
+		}
+	}
 	lifePanicBeforeStart := s.lifePanics[0]+s.lifePanics[1] > 0
 	if prop == "C06" && lifePanicBeforeStart && s.startErr == nil {
 		rc.Fail("C06.lifecycle-panic-not-reported", "Start returned nil although a prep/start routine panicked", "")
